@@ -318,7 +318,7 @@ let rec rand_op r ~nk ~other_mode ~refs ~depth : sop =
   | 7 -> D (rand_bool r)
   | 8 -> Ds (rand_bool r, pick r [| 0; 1; 2; 4; 8; 255 |])
   | 9 -> Pu (rand_u64 r)
-  | 10 -> Pc (rand_u64 r)
+  | 10 -> Pc (if rand_int r 8 = 0 then rand_u64 r else Z.of_int (rand_int r 70000))
   | 11 -> Bp (rand_u64 r, rand_u64 r)
   | 12 -> Iv (rand_blob r)
   | 13 -> Addr (match rand_int r 4 with 0 -> Z.zero | 1 -> Z.pred (p2 32) | 2 -> Z.of_int 255 | _ -> rand_u64 r)
